@@ -98,7 +98,7 @@ class Case:
             l.append("validator " + self.validator)
         if self.printer:
             l.append("printer 1")
-        for k in ("highlight", "signals", "paste", "helper_panic_at", "auto_add", "printers", "printers_late", "max_hist"):
+        for k in ("highlight", "signals", "paste", "helper_panic_at", "auto_add", "printers", "printers_late", "linger", "max_hist"):
             if k in self.meta:
                 l.append("%s %s" % (k, self.meta[k]))
         for ks, cmd in self.binds:
@@ -244,7 +244,7 @@ def run_tty_cases(res, exe, driver, cases, tmp, tag, compare_output=True, rng=No
         impl = canon_impl(raw)
         model = canon_model(m) if m is not None else None
         # the hang-up that ends a script is not part of the comparison: drop the reads it ends
-        if model is not None and not c.meta.get("events") and not c.meta.get("bursts"):
+        if model is not None and not c.meta.get("events") and not c.meta.get("bursts") and not c.meta.get("no_model"):
             # (prints at quiescent points are part of the model's input; signals and racing bursts are not)
             # what is written around a hang-up is lost with the terminal: compare those reads without output
             nw = lambda rs: [r.split(" W=")[0] if r.startswith("O=hangup") else r for r in rs]
